@@ -1,6 +1,42 @@
 """C17: the parse trace tells the truth."""
-from vlib import Inconclusive
+import glob
+import json
+import os
+
+from vlib import Inconclusive, add_tlc_cov, require_clean, run_tlc_shards
 import runcamp
+
+
+def late_trace(ctx, out):
+    """ConfLateTrace.tla: IsTrace switched on by the first action of a run; the late run shows what the full run shows from there."""
+    shards = sorted(glob.glob(os.path.join(out, "late-*.json")))
+    if not shards:
+        raise Inconclusive("no late-trace observations were written")
+    results = run_tlc_shards(ctx, "ConfLateTrace.tla", "ConfLateTrace.cfg", shards, timeout=ctx.pick(600, 3000), extra=["-continue"])
+    require_clean(results)
+    add_tlc_cov(ctx, results, "late run = full run minus the trace lines in front of the first action")
+    n = inter = 0
+    for sf, res in results:
+        obs = json.load(open(sf))
+        n += len(obs)
+        for o in obs:
+            ks = [x["k"] for x in o["full"]]
+            if "R" in ks and "trace" in ks[ks.index("R"):]:
+                inter += 1
+        bad = {}
+        for name, vars_, txt in res.violations:
+            o = obs[int(vars_["m"]) - 1]
+            bad.setdefault((o["case"], o["variant"]), o)
+        for (cid, var), o in bad.items():
+            key = "late:%s:%s" % (cid, var)
+            d = ctx.replay_dir(key)
+            json.dump({"property": "C17", "kind": "late-trace", "seed": ctx.seed, "obs": o}, open(os.path.join(d, "meta.json"), "w"), indent=1)
+            ctx.violation(key, d, "grammar %s, variant %s, run %d: with IsTrace switched on by the first action the parser printed\n  %s\nbut with IsTrace on from the start it prints\n  %s" % (
+                cid, var, o["run"], [x["s"] for x in o["late"]][:12], [x["s"] for x in o["full"]][:16]))
+    if inter < 200:
+        raise Inconclusive("late trace: only %d runs with trace lines after the first action" % inter)
+    ctx.cov["late_trace_pairs"] = n
+    ctx.cov["late_trace_pairs_with_lines_after_switch"] = inter
 
 
 def run(ctx, replay):
@@ -8,6 +44,8 @@ def run(ctx, replay):
                                      prefix="ttrace", variants="go,go-u,go-o,go-o-u")
     if not replay and (rs.get("ev_shift", 0) < ctx.pick(5000, 50000) or rs.get("ev_reduce", 0) < ctx.pick(2000, 20000)):
         raise Inconclusive("too few trace lines: %s" % rs)
+    if not replay:
+        late_trace(ctx, out)
     ctx.cov["rule"] = ("runs of the four Go variants with IsTrace = true; every printed line is one step of RunTrace17.tla (legal LR(0) "
                        "automaton step, exact rule text, current look-ahead, consistent state numbers, matches the executed action); "
                        "non-trivial = printed trace lines")
